@@ -28,7 +28,8 @@ ASSUMPTIONS = ["comment strings longer than the bound are not explored", "hang v
 ITEM_BUDGET_S = 1800
 TOKENS = ["mV", "ms", "1", "2", "9", "x", "a", "=", "/", "*", "**", "-", "(", ")", "'", '"', "#", " ", "\t", ""]
 TEXTS = ["", " ", "plain words", "mV", " mV", "ms**-1", "1", "1/0", "(", ")", "-", "mV/", "x = 1", "a = 3", "dx_dt = 0", "states(z=1)", "#", "## double",
-         'a "quoted" word', "it's", "mV # and more", "9**9**9", "expressions(\"B\")", "Conditional(", "pi", "e", "1e400", "dimensionless", "\t tab"]
+         'a "quoted" word', "it's", "mV # and more", "9**9**9", "expressions(\"B\")", "Conditional(", "pi", "e", "1e400", "dimensionless", "\t tab",
+         "2 ms", "0.5", "100 mV", "5 / ms", "-1", "1.5e-3 mV", "mV ms", "3 mV**2", "percent", "%", "degC", "1/ms", "ms^-1", "[mV]", "kg*m/s**2", "mol/L"]
 
 BASES = {
     "one": ['parameters(p=2.0, q=3.0)', 'states(x=1.0, y=2.0)', 'a = p*x + q', 'dx_dt = a - x', 'dy_dt = a*y - (q + x)'],
@@ -120,7 +121,8 @@ def transforms(bn, tier):
     for i, ln in enumerate(base):
         if ln.startswith(("parameters", "states")):
             for ai, (u, d) in enumerate((('unit="mV"', None), (None, 'description="a text"'), ('unit="mV"', 'description="a, text (x=1) # not a comment"'),
-                                         ('unit="1"', 'description=""'), ('unit="not_a_unit"', None))):
+                                         ('unit="1"', 'description=""'), ('unit="not_a_unit"', None), ('unit="2 ms"', None), ('unit="0.5"', None), ('unit="mV/ms"', 'description="100 %"'),
+                                         ('unit="ms**-1"', None), ('unit=""', None), ('unit="1/0"', None))):
                 def repl(m):
                     extra = "".join(", " + z for z in (u, d) if z)
                     return f"{m.group(1)}=ScalarParam({m.group(2)}{extra})"
